@@ -11,7 +11,9 @@ client end and the server is: open/closed flags for both ends, the bytes sent be
 accepted (`held`), and messages in flight.  The kernel is a FIFO queue `q` of pending
 notifications (connect completed, listening socket readable, data, EOF); `drain` handles them
 until nothing is left — the harness runs loop passes until quiescence after every operation.
-Virtual time only moves with `adv`.  User callbacks are scripts (stop / start / disconnect this
+Virtual time only moves with `adv`; the bare connector's retry delays come from a user table
+(`setReconnectDelayCalcFunc`, seconds per failure count, 1 by default and beyond the table; a zero delay makes the
+retry fire in the next `handleExpiredTimers`, see `fireAll`).  User callbacks are scripts (stop / start / disconnect this
 connection / send on this connection).  Ghosts: `hist` (callbacks and API marks), `alive`/`freed`
 (TcpConnection objects), `busy` (the object whose disconnected callback is executing), `uaf`
 (an object was deleted while its own callback was executing, or a deleted timer was dereferenced:
@@ -80,6 +82,7 @@ structure Link where
   sShut : Bool := false
   cLate : Bool := false     -- this end's TcpConnection gave up its descriptor, close(2) pending until the end of the current loop pass
   sLate : Bool := false
+  rst : Bool := false       -- the listening socket was closed with this link still in its backlog: the client end's SO_ERROR is ECONNRESET
 deriving Repr
 
 /-- TcpConnector -/
@@ -90,7 +93,12 @@ structure Cn where
   pend : Option Nat := none         -- link being connected (write event armed)
   deadline : Option Nat := none     -- retry timer
   seq : Nat := 0                    -- when the timer was armed (order among equal deadlines)
+  dAct : Option (Nat × Bool) := none  -- the user's delay function calls stop() (false) / cleanup() (true) of its connector when asked about this failure count
+  delays : List Nat := []           -- setReconnectDelayCalcFunc: seconds to wait after the k-th failure (k = 1, 2, …); beyond the table and by default: 1
 deriving Repr
+
+/-- `reconn_delay_calc_func_(conn_fail_times_)`, in seconds: the user's table, the default `[](int){return 1;}` beyond it -/
+def Cn.delayOf (c : Cn) (k : Nat) : Nat := c.delays.getD (k - 1) 1
 
 structure Client where
   st : ClSt := .none
@@ -151,7 +159,7 @@ deriving Repr
 
 /-- `fix` = patches/C06-04 and C06-05 applied -/
 structure Cfg where
-  fix : Bool := true      -- C06-04, C06-05
+  fix : Bool := true      -- C06-04, C06-05, C06-11
   fix2 : Bool := true     -- C06-06, C06-07: cleanup() from inside a callback
   fix3 : Bool := true     -- C06-08: socket() failure is a failed attempt
 
@@ -246,6 +254,10 @@ def N.closeSNow (n : N) (l : Nat) : N :=
     if k.cOpen then n.push (.eofC l) else n
   else n
 
+/-- … and the kernel marks the client end of that link as reset: a connector whose write event has not been served yet
+reads ECONNRESET from SO_ERROR (a failed attempt); a connection already handed to its owner reads the end of the stream -/
+def N.markRst (n : N) (l : Nat) : N := n.setLink l { n.link l with rst := true }
+
 /-- a socket closed directly (connector giving up, raw peer) -/
 def N.closeCNow (n : N) (l : Nat) : N :=
   let k := n.link l
@@ -261,6 +273,27 @@ def backlogMax : Nat := 8
 
 /-! ### TcpConnector -/
 
+/-- `TcpConnector::stop()` -/
+def cnStop (n : N) (w : Who) : N :=
+  let c := n.cn w
+  match c.st with
+  | .connecting =>
+      let n := match c.pend with | some l => n.closeCNow l | none => n
+      n.setCn w { c with st := .inited, pend := none }
+  | .delay =>
+      -- exitReconnectDelayState dereferences the timer: it is gone while the code as found runs the
+      -- failure callback after a retry (state still Delay)
+      let n := if c.deadline.isNone then { n with uaf := true } else n
+      n.setCn w { c with st := .inited, deadline := none }
+  | _ => n
+
+/-- `TcpConnector::cleanup()` of the bare connector -/
+def knCleanup (n : N) : N :=
+  if n.kn.st = .none then n
+  else
+    let n := cnStop n .kn
+    { n with kn := { n.kn with st := .none, tries := 0, fails := 0, delays := [], dAct := none } }
+
 /-- the failure branch of `enterConnectingState` / `onConnectFail`; returns true when the failure
 callback has to be called (try limit reached) -/
 def cnFail (cfg : Cfg) (n : N) (w : Who) : N × Bool :=
@@ -270,7 +303,23 @@ def cnFail (cfg : Cfg) (n : N) (w : Who) : N × Bool :=
     -- as found the state is left as it was (Delay without a timer, or Inited) while the callback runs
     (n.setCn w (if cfg.fix then { c with st := .inited } else c), true)
   else
-    ({ (n.setCn w { c with st := .delay, deadline := some (n.now + 1000), seq := n.tick }) with tick := n.tick + 1 }, false)
+    -- enterReconnectDelayState: `std::chrono::seconds(delay_sec)`, a one-shot timer (exact for every 0 ≤ delay_sec ≤ INT_MAX:
+    -- the conversion to milliseconds is done in 64 bits)
+    let armed : N := { (n.setCn w { c with st := .delay, deadline := some (n.now + 1000 * c.delayOf c.fails), seq := n.tick }) with tick := n.tick + 1 }
+    match w, c.dAct with
+    | .kn, some (k, cl) =>
+        if k = c.fails then
+          if cfg.fix then
+            -- C06-11: the timer object exists and the state is Delay while the user's function runs; its stop() / cleanup()
+            -- ends this wait, nothing is armed afterwards
+            (if cl then knCleanup armed else (cnStop armed .kn).ev .knStop, false)
+          else
+            -- as found the function runs first, in the state the failure came from, with no timer object (after a retry) and
+            -- no write event (after a late failure): stop() dereferences the null pointer; and whatever it did, the timer
+            -- is armed and the state set to Delay afterwards
+            ({ armed with uaf := armed.uaf || (n.cn w).st != .inited }, false)
+        else (armed, false)
+    | _, _ => (armed, false)
 
 /-- `enterConnectingState` -/
 def cnEnter (cfg : Cfg) (n : N) (w : Who) : N × Bool :=
@@ -289,20 +338,6 @@ def cnEnter (cfg : Cfg) (n : N) (w : Who) : N × Bool :=
     ((n.push .accept).push (.writable w), false)
   else cnFail cfg n w
 
-/-- `TcpConnector::stop()` -/
-def cnStop (n : N) (w : Who) : N :=
-  let c := n.cn w
-  match c.st with
-  | .connecting =>
-      let n := match c.pend with | some l => n.closeCNow l | none => n
-      n.setCn w { c with st := .inited, pend := none }
-  | .delay =>
-      -- exitReconnectDelayState dereferences the timer: it is gone while the code as found runs the
-      -- failure callback after a retry (state still Delay)
-      let n := if c.deadline.isNone then { n with uaf := true } else n
-      n.setCn w { c with st := .inited, deadline := none }
-  | _ => n
-
 /-! ### TcpServer -/
 
 def svLookup (n : N) (t : Nat) : Option Nat := (n.sv.table.find? (·.1 = t)).map (·.2)
@@ -314,9 +349,11 @@ def svSend (n : N) (t : Nat) (_d : List Byte) : N × Bool :=
       -- inside its disconnected callback the connection has already given up its descriptor
       if n.busy = some (l, true) then (n, false) else
       -- an empty payload still arms the write event (send-complete) but nothing arrives
-      -- after shutdown(SHUT_WR) / towards a closed peer the write fails: dropped with a warning, no write event
+      -- after shutdown(SHUT_WR) / towards a closed peer the write fails: not accepted, no write event
       -- (a peer that gave up its descriptor earlier in this pass is still open: the write succeeds)
-      (if ((n.link l).cOpen ∨ (n.link l).cLate) ∧ ¬ (n.link l).sShut then (if _d = [] then n else n.push (.toC l _d)).push (.sentS l) else n, true)
+      -- (patches/C06-09: EPIPE is a lasting error, `send` returns false)
+      (if ((n.link l).cOpen ∨ (n.link l).cLate) ∧ ¬ (n.link l).sShut then (if _d = [] then n else n.push (.toC l _d)).push (.sentS l) else n,
+       decide (((n.link l).cOpen ∨ (n.link l).cLate) ∧ ¬ (n.link l).sShut))
 
 def svDisconnect (n : N) (t : Nat) : N × Bool :=
   match svLookup n t with
@@ -338,7 +375,9 @@ def clSend (n : N) (i : Nat) (d : List Byte) : N × Bool :=
   let c := n.client i
   match c.st, c.link with
   | .connected, some l =>
-      (if ((n.link l).sOpen ∨ (n.link l).sLate) ∧ ¬ (n.link l).cShut then (if d = [] then n else n.push (.toS l d)).push (.sentC l) else n, true)
+      -- after shutdown(SHUT_WR) / towards a closed peer the write fails with EPIPE: refused (patches/C06-09)
+      (if ((n.link l).sOpen ∨ (n.link l).sLate) ∧ ¬ (n.link l).cShut then (if d = [] then n else n.push (.toS l d)).push (.sentC l) else n,
+       decide (((n.link l).sOpen ∨ (n.link l).sLate) ∧ ¬ (n.link l).cShut))
   | _, _ => (n, false)
 
 def clStart (cfg : Cfg) (n : N) (i : Nat) : N × Bool :=
@@ -394,7 +433,7 @@ def svCleanup (cfg : Cfg) (n : N) : N :=
   if n.sv.st = .none then n
   else
     let n := svStop cfg n
-    let n := n.backlog.foldl (fun n l => n.closeSNow l) n
+    let n := n.backlog.foldl (fun n l => (n.closeSNow l).markRst l) n
     { n with backlog := [], listening := false, sv := { n.sv with st := .none } }
 
 /-- `TcpClient::cleanup()`: stop(); sp_connector->cleanup() (which stops the connector once more) -/
@@ -404,13 +443,6 @@ def clCleanup (n : N) (i : Nat) : N :=
     let n := cnStop (clStop n i) (.cl i)
     let c := n.client i
     n.setClient i { c with st := .none, reconnect := true, cn := { c.cn with st := .none, fails := 0, tries := 0 } }
-
-/-- `TcpConnector::cleanup()` of the bare connector -/
-def knCleanup (n : N) : N :=
-  if n.kn.st = .none then n
-  else
-    let n := cnStop n .kn
-    { n with kn := { n.kn with st := .none, tries := 0, fails := 0 } }
 
 /-- cleanup() called from a callback whose std::function it destroys (as found: use after free) -/
 def cleanupHits (n : N) (x : Ctx) : Bool :=
@@ -493,8 +525,9 @@ def handle (cfg : Cfg) (n : N) : Msg → N
       let c := n.cn w
       match c.st, c.pend with
       | .connecting, some l =>
-          if n.lateFail > 0 then
-            -- SO_ERROR reports a failure after EINPROGRESS: exitConnectingState(), onConnectFail()
+          if n.lateFail > 0 ∨ (n.link l).rst then
+            -- SO_ERROR reports a failure after EINPROGRESS (or ECONNRESET: the listener was closed before it accepted this
+            -- connection and before this event was served): exitConnectingState(), onConnectFail()
             let n := ({ n with lateFail := n.lateFail - 1 }).closeCNow l
             let r := cnFail cfg n w
             match w with
@@ -598,45 +631,6 @@ def absorb (m : Msg) (qn : List Msg) : Msg × List Msg :=
        qn.filter fun x => match x with | .toC l' _ => l' ≠ l | _ => true)
   | _ => (m, qn)
 
-def drain (cfg : Cfg) : Nat → N → N
-  | 0, n => n
-  | fuel + 1, n =>
-      match n.q with
-      | m :: rest =>
-          -- data and EOF pending together: the read loop takes the data, the EOF is reported by the next pass
-          let isEofOf : Msg → Bool := fun x => match m, x with
-            | .toS l _, .eofS l' => l = l'
-            | .toC l _, .eofC l' => l = l'
-            | _, _ => false
-          drain cfg fuel (handle cfg { n with q := rest.filter (!isEofOf ·), qn := rest.filter isEofOf ++ (absorb m n.qn).2 }
-            (absorb m n.qn).1)
-      | [] =>
-          -- end of a pass: the deferred tasks ran after the callbacks
-          let n := n.endPass
-          if n.qn = [] ∧ n.qlate = [] then n
-          else drain cfg fuel { n with q := (passOrder n (n.qn ++ n.qlate)).2, qn := [], qlate := [],
-                                       lastFds := (passOrder n (n.qn ++ n.qlate)).1 }
-
-/-- at rest: no notification pending -/
-def N.quiet (n : N) : Bool := n.q.isEmpty && n.qn.isEmpty && n.qlate.isEmpty
-
-/-! ### operations -/
-
-inductive Op where
-  | svInit | svStart | svStop | svCleanup
-  | svSend (t : Nat) (d : List Byte) | svDisc (t : Nat) | svValid (t : Nat) | svShut (t : Nat)
-  | svScript (which : Nat) (s : Script)
-  | clInit (i : Nat) | clStart (i : Nat) | clStop (i : Nat) | clCleanup (i : Nat)
-  | clRec (i : Nat) (b : Bool) | clSend (i : Nat) (d : List Byte) | clShut (i : Nat)
-  | clScript (i : Nat) (which : Nat) (s : Script)
-  | knInit (tries : Nat) | knStart | knStop | knCleanup
-  | knScript (which : Nat) (s : Script)
-  | rawConn | rawSend (d : List Byte) | rawClose | rawHold (b : Bool)
-  | adv (ms : Nat)
-  | budget (k : Nat)                     -- how many `more` sends the callbacks may make
-  | fault (kind : Nat) (k : Nat)         -- the next k socket() (0) / accept() (1, EMFILE) calls fail, connects fail late (2); 3 = connect reports EINPROGRESS (no effect); the next k connect() calls fail at once with ECONNREFUSED (4); the next k accept() calls fail with ECONNABORTED and drop the pending connection (5)
-deriving Repr
-
 /-- insertion by (deadline, arming order) -/
 def insertTimer (a : Who × Nat × Nat) : List (Who × Nat × Nat) → List (Who × Nat × Nat)
   | [] => [a]
@@ -662,6 +656,61 @@ def fireTimer (cfg : Cfg) (n : N) (w : Who) : N :=
     | .kn => knFailCb cfg r
     | _ => r.1
   else n
+
+/-- `handleExpiredTimers`: the timers that are due fire, oldest first; a timer armed meanwhile with delay 0 is due at
+once and fires in the same call (`timerFuel` rounds: the harness only gives delay tables with finitely many zeros) -/
+def fireAll (cfg : Cfg) : Nat → N → N
+  | 0, n => n
+  | fuel + 1, n =>
+      match dueTimers n with
+      | [] => n
+      | t :: ts => fireAll cfg fuel ((t :: ts).foldl (fun n t => fireTimer cfg n t.1) n)
+
+def timerFuel : Nat := 16
+
+def drain (cfg : Cfg) : Nat → N → N
+  | 0, n => n
+  | fuel + 1, n =>
+      match n.q with
+      | m :: rest =>
+          -- data and EOF pending together: the read loop takes the data, the EOF is reported by the next pass
+          let isEofOf : Msg → Bool := fun x => match m, x with
+            | .toS l _, .eofS l' => l = l'
+            | .toC l _, .eofC l' => l = l'
+            | _, _ => false
+          drain cfg fuel (handle cfg { n with q := rest.filter (!isEofOf ·), qn := rest.filter isEofOf ++ (absorb m n.qn).2 }
+            (absorb m n.qn).1)
+      | [] =>
+          -- end of a pass: the deferred tasks ran after the callbacks
+          let n := n.endPass
+          if n.qn = [] ∧ n.qlate = [] ∧ dueTimers n = [] then n
+          else
+            -- the next pass: epoll_wait, then handleExpiredTimers (a retry timer armed with delay 0 is due at once), then
+            -- the descriptors; what the timers cause is seen by the pass after it
+            let n' := fireAll cfg timerFuel { n with qn := [], qlate := [], lastFds := (passOrder n (n.qn ++ n.qlate)).1 }
+            drain cfg fuel { n' with q := (passOrder n (n.qn ++ n.qlate)).2 }
+
+/-- at rest: no notification pending -/
+def N.quiet (n : N) : Bool := n.q.isEmpty && n.qn.isEmpty && n.qlate.isEmpty && (dueTimers n).isEmpty
+
+/-! ### operations -/
+
+inductive Op where
+  | svInit | svStart | svStop | svCleanup
+  | svSend (t : Nat) (d : List Byte) | svDisc (t : Nat) | svValid (t : Nat) | svShut (t : Nat)
+  | svScript (which : Nat) (s : Script)
+  | clInit (i : Nat) | clStart (i : Nat) | clStop (i : Nat) | clCleanup (i : Nat)
+  | clRec (i : Nat) (b : Bool) | clSend (i : Nat) (d : List Byte) | clShut (i : Nat)
+  | clScript (i : Nat) (which : Nat) (s : Script)
+  | knInit (tries : Nat) | knStart | knStop | knCleanup
+  | knDelay (tbl : List Nat)             -- setReconnectDelayCalcFunc of the bare connector
+  | knDelayAct (tbl : List Nat) (k : Nat) (cl : Bool)   -- … with a function that calls stop() / cleanup() at the k-th failure
+  | knScript (which : Nat) (s : Script)
+  | rawConn | rawSend (d : List Byte) | rawClose | rawHold (b : Bool)
+  | adv (ms : Nat)
+  | budget (k : Nat)                     -- how many `more` sends the callbacks may make
+  | fault (kind : Nat) (k : Nat)         -- the next k socket() (0) / accept() (1, EMFILE) calls fail, connects fail late (2); 3 = connect reports EINPROGRESS (no effect); the next k connect() calls fail at once with ECONNREFUSED (4); the next k accept() calls fail with ECONNABORTED and drop the pending connection (5)
+deriving Repr
 
 def step (cfg : Cfg) (n : N) : Op → N × Bool
   | .svInit =>
@@ -708,6 +757,8 @@ def step (cfg : Cfg) (n : N) : Op → N × Bool
         let n := ({ n with kn := { n.kn with fails := 0 } }).ev .knStart
         (knFailCb cfg (cnEnter cfg n .kn), true)
   | .knStop => ((cnStop n .kn).ev .knStop, true)
+  | .knDelay tbl => ({ n with kn := { n.kn with delays := tbl, dAct := none } }, true)
+  | .knDelayAct tbl k cl => ({ n with kn := { n.kn with delays := tbl, dAct := some (k, cl) } }, true)
   | .knCleanup => (knCleanup n, true)
   | .knScript w s => (if w = 0 then { n with knFail := s } else { n with knConn := s }, true)
   | .rawConn =>
@@ -729,8 +780,7 @@ def step (cfg : Cfg) (n : N) : Op → N × Bool
       else ({ n with rawHold := false, rawGot := n.rawGot ++ n.rawHeld, rawHeld := [],
                      rawEof := n.rawEof || n.rawEofHeld, rawEofHeld := false }, true)
   | .adv ms =>
-      let n := { n with now := n.now + ms }
-      ((dueTimers n).foldl (fun n t => fireTimer cfg n t.1) n, true)
+      (fireAll cfg timerFuel { n with now := n.now + ms }, true)
   | .budget k => ({ n with budget := k }, true)
   | .fault kind k =>
       (match kind with
